@@ -10,9 +10,13 @@ ID = 'C02'
 GENS = ['units', 'consts']
 TARGETS = ['BC.Props.C02']
 PROP_FILES = ['BC/Props/C02.lean', 'BC/Lemmas/Loop.lean', 'BC/Lemmas/C02.lean']
+# source ties: function bodies regenerated from the Python source by translate/t_funcs.py, proved equal to the model functions
+SRC = {'module': 'BC.Props.C02Src', 'file': 'BC/Props/C02Src.lean',
+       'theorems': ['C02_src_zero_error', 'C02_src_zero_correct', 'C02_src_zero_loop_step', 'C02_src_zero_loop_end', 'C02_src_zero_angle', 'C02_src_zero_start', 'C02_src_zero_result', 'C02_src_zero_miss']}
 THEOREMS = ['C02_returned_meets_accuracy', 'C02_error_otherwise', 'C02_converges_partial', 'C02_failed_zero_leaves_weapon', 'C02_zero_angle_def',
             'C02_hits_sight_line', 'C02_starts_on_sight_line', 'C02_independent_of_stored_zero']
 STATEMENTS = {
+    'C02_src_zero_loop_step': 'SOURCE TIE (all C02_src_*): zero_angle as slices executed symbolically from the Python source on every run (start on the sight line, zero distance, initial error/count, loop condition, error and corrected elevation from the second row of the trial trajectory, break, verdict after the loop; the _integrate call, the counter increment and the raised ZeroFindingError matched structurally) equal the pieces of zeroLoop / zeroMiss / zeroAngle / zeroAngleOfShot',
     'C02_returned_meets_accuracy': 'whenever the zero finder returns an elevation e, the sampled point of the run AT e is within the zero-finding accuracy of the sight line',
     'C02_error_otherwise': 'otherwise it raises: an error propagated unchanged from a trajectory computation, or ZeroFindingError with error > accuracy and iterations <= cap; never an angle that misses',
     'C02_converges_partial': 'PARTIAL: if every run succeeds and the miss contracts by q per iteration with q^(cap-1)*first miss <= accuracy, the zero finder returns (it does not fail). '
